@@ -131,6 +131,7 @@ func handle(r Req) (o Obs) {
 				}()
 				o.Out = t.String()
 			}()
+			aliasHeads(t, &o)
 		}()
 	case "R": // Context.ParseType observed for the model of the resolve stage (coq/Model/Resolve.v)
 		resolveObs(r.In, &o)
@@ -395,4 +396,48 @@ func serve() { workerMain(handle) }
 func faultMessage(msg string) bool {
 	return strings.Contains(msg, "runtime error:") || strings.Contains(msg, "interface conversion:") ||
 		strings.Contains(msg, "invalid memory address") || strings.Contains(msg, "reflect:")
+}
+
+// aliasHeads: for a type set, the head of the resolved type of every member that is an alias, in the order of
+// declaration (coq/Model/ResolveAlias.v head_kind): 0 core type, 1 TypeReference, 2 alias, 3 container, 4 Object,
+// 5 no resolved type; 8 for a member that is no alias. A fault here is noted, not judged.
+func aliasHeads(t px.Type, o *Obs) {
+	ts, ok := t.(px.TypeSet)
+	if !ok {
+		return
+	}
+	defer func() {
+		if x := recover(); x != nil {
+			if o.Aux == nil {
+				o.Aux = map[string]string{}
+			}
+			o.Aux["alias_heads"] = "fault"
+		}
+	}()
+	var hs []string
+	ts.Types().EachValue(func(v px.Value) {
+		k := 8
+		if a, ok := v.(*types.TypeAliasType); ok {
+			rt, _ := a.Get("resolved_type")
+			switch rt.(type) {
+			case nil:
+				k = 5
+			case *types.TypeReferenceType:
+				k = 1
+			case *types.TypeAliasType:
+				k = 2
+			case *types.ArrayType, *types.HashType, *types.TupleType, *types.VariantType, *types.OptionalType, *types.NotUndefType, *types.TypeType:
+				k = 3
+			case px.ObjectType:
+				k = 4
+			default:
+				k = 0
+			}
+		}
+		hs = append(hs, fmt.Sprintf("%d%%nat", k))
+	})
+	if o.Aux == nil {
+		o.Aux = map[string]string{}
+	}
+	o.Aux["alias_heads"] = lib.GList(hs, "nat")
 }
